@@ -18,11 +18,13 @@
    and change of lattice basis.
    C09_invariance_full_statement (DimensionalityProofs.v) is PROVED (InvarianceFull.v): arbitrary shift vectors, any injective
    re-numbering, any invertible change of lattice basis, with no side conditions beyond well-formedness of both presentations.
-   Supercells (a different number of atoms) are covered by tests only. *)
+   Supercells: a presentation that COVERS another through an integer matrix has the same self-translation lattice up to that
+   matrix and the same integer rank (Supercell.v); the cover relation is decided by a boolean checker proved sound and evaluated
+   inside Coq on every generated base/supercell pair. *)
 From Coq Require Import List Arith ZArith Bool.
 Import ListNotations.
 From MV Require Import Geometry.RankDet Base.Graph Base.Cover Base.ZV3 Geometry.Dimensionality Geometry.DimensionalityProofs
-  Geometry.DimensionalityInvariance Geometry.RankElim Geometry.VoltageLattice Geometry.InvarianceFull Geometry.Extend Geometry.DispTensor Geometry.DimFromTensor Geometry.Sublattice.
+  Geometry.DimensionalityInvariance Geometry.RankElim Geometry.VoltageLattice Geometry.InvarianceFull Geometry.Extend Geometry.DispTensor Geometry.DimFromTensor Geometry.Sublattice Geometry.Supercell.
 From Coq Require Import QArith.
 Local Open Scope nat_scope.
 
@@ -376,3 +378,42 @@ Example C09_sublattice_example :
   (forall v, In v vs' -> span vs v) /\ (forall v, In v vs -> span vs' (oscale 2 v)) /\ rank_det vs' = 2 /\ rank_det vs = 2.
 Proof. exact sublattice_example. Qed.
 Print Assumptions C09_sublattice_example.
+
+(* SUPERCELLS.  A presentation E' that covers E through an integer matrix M (every pair of E' projects to a pair of E, every
+   pair of E lifts, atoms of E' are distinguished by original atom and shift modulo M.Z^3) has an isomorphic infinite bonded
+   network: its self-translations are exactly the t' with M t' a self-translation of E ... *)
+Theorem C09_supercell_self_translations :
+  forall n n' p E E' M at_ sh, cover n n' p E E' M at_ sh ->
+  forall t, self_translation E' t <-> self_translation E (lin M t).
+Proof. exact st_cover. Qed.
+Print Assumptions C09_supercell_self_translations.
+(* ... hence the same integer rank whenever both presentations are connected (M adj(M) = d.I, d <> 0) *)
+Theorem C09_supercell_integer_rank :
+  forall n n' p E E' M at_ sh, cover n n' p E E' M at_ sh ->
+  forall M' d, (forall v, lin M (lin M' v) = oscale d v) -> d <> 0%Z -> udet M <> 0%Z ->
+  all_placed (potentials n E) = true -> all_placed (potentials n' E') = true ->
+  rankZ (voltages (potentials n' E') E') = rankZ (voltages (potentials n E) E).
+Proof. exact supercell_rankZ. Qed.
+Print Assumptions C09_supercell_integer_rank.
+(* the cover relation is decidable; the checker is sound, and for ase.Atoms.repeat((r0, r1, r2)) it is evaluated inside Coq on
+   every generated base/supercell pair of the correspondence: whenever it accepts, the integer ranks agree *)
+Theorem C09_cover_checker_sound :
+  forall n n' p E E' M M' d at_ sh, d <> 0%Z -> (forall v, lin M' (lin M v) = oscale d v) ->
+  cover_b n n' p E E' M M' d at_ sh = true -> cover n n' p E E' M at_ sh.
+Proof. exact cover_b_sound. Qed.
+Print Assumptions C09_cover_checker_sound.
+Theorem C09_supercell_repeat_invariance :
+  forall n n' p E E' r0 r1 r2, 0 < r0 -> 0 < r1 -> 0 < r2 -> cover_repeat_b n n' p E E' r0 r1 r2 = true ->
+  all_placed (potentials n E) = true -> all_placed (potentials n' E') = true ->
+  rankZ (voltages (potentials n' E') E') = rankZ (voltages (potentials n E) E).
+Proof. exact supercell_repeat_rankZ_nat. Qed.
+Print Assumptions C09_supercell_repeat_invariance.
+Example C09_supercell_example :
+  let p := (true, false, false) in
+  let E := [(0, 1, (0, 0, 0)%Z); (1, 0, (1, 0, 0)%Z)] in
+  let E' := [(0, 1, (0, 0, 0)%Z); (1, 2, (0, 0, 0)%Z); (2, 3, (0, 0, 0)%Z); (3, 0, (1, 0, 0)%Z)] in
+  let at_ := fun u => u mod 2 in let sh := fun u => (Z.of_nat (u / 2), 0, 0)%Z in
+  cover_b 2 4 p E E' (diagM 2 1 1) (diagM (1 * 1) (2 * 1) (2 * 1)) (2 * 1 * 1) at_ sh = true
+  /\ dim_spec 2 p E = Some (1, 1) /\ dim_spec 4 p E' = Some (1, 1).
+Proof. exact supercell_example. Qed.
+Print Assumptions C09_supercell_example.
